@@ -37,11 +37,34 @@ func NewLens[S, A any](t hseq.Type[S]) Lens[S, A] {
 		panic(fmt.Errorf("invalid type: Lens[%s, %s] container is not a struct", cat.String(), fv.Name()))
 	}
 
+	// the focus has to be a field laid out inside S itself: a field behind an
+	// embedded pointer is not at RootOffs+Offset of the outer struct
+	if !inline(cat, t.StructField, t.RootOffs+t.Offset) {
+		panic(fmt.Errorf("invalid type: Lens[%s, %s] field %s is not laid out inside the struct (embedded pointer?)", cat.Name(), fv.Name(), t.Name))
+	}
+
 	if ft.String() == fv.String() && ft.AssignableTo(fv) {
 		return &lens[S, A]{t}
 	}
 
 	panic(fmt.Errorf("invalid type: Lens[%s, %s] not compatible with %s", cat.Name(), ft.Name(), fv.Name()))
+}
+
+// inline reports whether struct type cat has the field f at byte offset off,
+// reached through fields held by value only.
+func inline(cat reflect.Type, f reflect.StructField, off uintptr) bool {
+	for i := 0; i < cat.NumField(); i++ {
+		x := cat.Field(i)
+		if x.Offset == off && x.Name == f.Name && x.Type == f.Type {
+			return true
+		}
+		if x.Type.Kind() == reflect.Struct && off >= x.Offset && off-x.Offset < x.Type.Size() {
+			if inline(x.Type, f, off-x.Offset) {
+				return true
+			}
+		}
+	}
+	return false
 }
 
 type lens[S, A any] struct{ hseq.Type[S] }
